@@ -668,4 +668,506 @@ theorem step_linv {cv : Curve} {K0 C0 K1 C1 : Nat} {s s' : St} {op : Op} (hL : L
       · simp only [St.user, dflt]; omega
       · simp only [St.user, dflt]; omega
 
+/-! ### constant-product pair: solvency / locked liquidity / LP value -/
+
+/-- constant-product swap on the two sides: what the ask side loses is at most the gross output, which
+    is at most `ask·offer/(offer_pool+offer)` -/
+theorem cp_swap_bound {f : Fees} {dir : Bool} {o a a' : Side} {amt : Nat} {c : SwapComp}
+    (fx : SwapFx cpCurve f dir o a a' amt c) :
+    ∃ g, c.ret + c.protFee + c.burnFee ≤ g ∧
+      g * ((o.bal - o.pend - amt) + amt) ≤ (a.bal - a.pend) * amt ∧ g ≤ a.bal - a.pend := by
+  have hc : cpSwap (o.bal - o.pend - amt) (a.bal - a.pend) amt f = .ok c := fx.comp
+  obtain ⟨h0, hsum⟩ := cpSwap_inv hc
+  refine ⟨(a.bal - a.pend) * amt / (o.bal - o.pend - amt + amt), by omega, Nat.div_mul_le_self _ _, ?_⟩
+  exact gross_le_ask (Nat.div_mul_le_self _ _) h0
+
+theorem Side.res_bal (x : Side) (b : Nat) : ({ x with bal := b } : Side).res = b - x.pend := rfl
+
+/-- **one step keeps the pool solvent and the LP bookkeeping exact, and never lets the pair's own LP
+    tokens out** (constant-product pair) -/
+theorem step_inv {s s' : St} {op : Op} (hI : Inv s) (h : step cpCurve s op = .ok s') :
+    Inv s' ∧ s.lpPair ≤ s'.lpPair := by
+  have swapCase : ∀ {u dir off rcv : Nat} {ms : Option Nat}, swap cpCurve s u dir off ms rcv = .ok s' →
+      Inv s' ∧ s.lpPair ≤ s'.lpPair := by
+    intro u dir off rcv ms h
+    obtain ⟨e1, e2, _, _, eL, hcase⟩ := swap_ok h
+    have hs := hI.lpSum; have hl := hI.locked
+    rcases hcase with ⟨_, a', c, fx, x0, x1, _, _⟩ | ⟨_, a', c, fx, x1, x0, _, _⟩
+    · obtain ⟨g, hg1, _, hg3⟩ := cp_swap_bound fx
+      have := fx.offerOk; have := fx.askOk; have := fx.bal; have := fx.pend; have := fx.paid
+      refine ⟨⟨?_, ?_, by omega, by omega⟩, by omega⟩
+      · rw [x0]; simp only [] at *; omega
+      · rw [x1]; omega
+    · obtain ⟨g, hg1, _, hg3⟩ := cp_swap_bound fx
+      have := fx.offerOk; have := fx.askOk; have := fx.bal; have := fx.pend; have := fx.paid
+      refine ⟨⟨?_, ?_, by omega, by omega⟩, by omega⟩
+      · rw [x0]; omega
+      · rw [x1]; simp only [] at *; omega
+  cases op with
+  | provide u rcv d0 d1 tol =>
+    obtain ⟨share, lock, l0, l1, es, _, _, _, _, e0, e1, eS, eP, _, _, _, _, _, eL⟩ := provide_ok h
+    have hs := hI.lpSum; have hl := hI.locked
+    have hlock : s.sup = 0 → Gen.MINIMUM_LIQUIDITY_AMOUNT ≤ lock := by
+      intro h0
+      rcases provideShares_ok es with ⟨_, hk, _, _⟩ | ⟨hn, _⟩
+      · omega
+      · exact absurd h0 hn
+    refine ⟨⟨?_, ?_, by omega, ?_⟩, by omega⟩
+    · rw [e0]; simp only []; omega
+    · rw [e1]; simp only []; omega
+    · right
+      rcases hl with h0 | h0
+      · have := hlock h0; omega
+      · omega
+  | swap u dir off ms rcv => exact swapCase h
+  | swapBad u dir off sent => exact swapCase (swapBad_ok h)
+  | withdraw u amt =>
+    obtain ⟨r0, r1, er, hu, ha, hr0, hr1, e0, e1, eS, eP, _, _, _, _, _, eL⟩ := withdraw_ok h
+    obtain ⟨hS, l0, l1, q0, q1⟩ := refunds_ok er
+    have hs := hI.lpSum; have hl := hI.locked
+    have hle := getD_le_sumF (·.lp) s.users u hu dflt
+    simp only [St.user, dflt] at ha hle
+    have hamt : amt ≤ s.sup := by omega
+    -- each refund is at most the reported reserve
+    have b0 : r0 ≤ s.x0.bal - s.x0.pend := by
+      have := refund_le_pro_rata (p := s.x0.bal - s.x0.pend) (amt := amt) hS E18_pos
+      rw [← q0] at this
+      have hpos : 0 < s.sup := Nat.pos_of_ne_zero hS
+      by_contra hc
+      have hc := Nat.lt_of_not_le hc
+      have : (s.x0.bal - s.x0.pend) * amt < r0 * s.sup := by nlinarith
+      omega
+    have b1 : r1 ≤ s.x1.bal - s.x1.pend := by
+      have := refund_le_pro_rata (p := s.x1.bal - s.x1.pend) (amt := amt) hS E18_pos
+      rw [← q1] at this
+      have hpos : 0 < s.sup := Nat.pos_of_ne_zero hS
+      by_contra hc
+      have hc := Nat.lt_of_not_le hc
+      have : (s.x1.bal - s.x1.pend) * amt < r1 * s.sup := by nlinarith
+      omega
+    refine ⟨⟨?_, ?_, by omega, ?_⟩, by omega⟩
+    · rw [e0]; simp only []; omega
+    · rw [e1]; simp only []; omega
+    · right
+      rcases hl with h0 | h0
+      · exact absurd h0 hS
+      · omega
+  | collect =>
+    obtain ⟨y0, y1, h0, h1, e⟩ := collect_ok h
+    subst e
+    refine ⟨⟨?_, ?_, hI.lpSum, hI.locked⟩, Nat.le_refl _⟩
+    · rcases collectSide_ok h0 with ⟨_, _, e⟩ | ⟨_, e⟩ <;> subst e
+      · simp
+      · exact hI.solv0
+    · rcases collectSide_ok h1 with ⟨_, _, e⟩ | ⟨_, e⟩ <;> subst e
+      · simp
+      · exact hI.solv1
+  | setFees o f =>
+    obtain ⟨_, _, e⟩ := setFees_ok h
+    subst e
+    exact ⟨⟨hI.solv0, hI.solv1, hI.lpSum, hI.locked⟩, Nat.le_refl _⟩
+  | donate u which amt =>
+    obtain ⟨hu, hcase⟩ := donate_ok h
+    have hs := hI.lpSum; have hl := hI.locked
+    have s0 := hI.solv0; have s1 := hI.solv1
+    rcases hcase with ⟨_, ha, e⟩ | ⟨_, ha, e⟩ | ⟨_, ha, e⟩
+    · subst e
+      have hL := sumF_set (·.lp) s.users u { s.user u with a := (s.user u).a - amt } dflt hu
+      simp only [St.user, dflt] at hL
+      refine ⟨⟨by simp only []; omega, s1, ?_, hl⟩, Nat.le_refl _⟩
+      simp only [St.user, dflt]; omega
+    · subst e
+      have hL := sumF_set (·.lp) s.users u { s.user u with b := (s.user u).b - amt } dflt hu
+      simp only [St.user, dflt] at hL
+      refine ⟨⟨s0, by simp only []; omega, ?_, hl⟩, Nat.le_refl _⟩
+      simp only [St.user, dflt]; omega
+    · subst e
+      have hL := sumF_set (·.lp) s.users u { s.user u with lp := (s.user u).lp - amt } dflt hu
+      simp only [St.user, dflt] at hL ha
+      refine ⟨⟨s0, s1, ?_, ?_⟩, by simp only []; omega⟩
+      · simp only [St.user, dflt]; omega
+      · rcases hl with h0 | h0
+        · left; exact h0
+        · right; simp only []; omega
+
+theorem ValueLe.refl (s : St) : ValueLe s s := Nat.le_refl _
+
+theorem ValueLe.of_res {s s' : St} (h0 : s.x0.res ≤ s'.x0.res) (h1 : s.x1.res ≤ s'.x1.res)
+    (hs : s'.sup = s.sup) : ValueLe s s' := by
+  unfold ValueLe
+  rw [hs]
+  exact Nat.mul_le_mul_right _ (Nat.mul_le_mul h0 h1)
+
+/-- **the value backing one LP token never falls** across a successful operation of the
+    constant-product pair (`√(r0·r1)/S`, cross-multiplied and squared; `S ≠ 0` before the operation) -/
+theorem step_value {s s' : St} {op : Op} (h : step cpCurve s op = .ok s') (hS : s.sup ≠ 0) :
+    ValueLe s s' := by
+  have swapCase : ∀ {u dir off rcv : Nat} {ms : Option Nat}, swap cpCurve s u dir off ms rcv = .ok s' →
+      ValueLe s s' := by
+    intro u dir off rcv ms h
+    obtain ⟨e1, _, _, _, _, hcase⟩ := swap_ok h
+    unfold ValueLe
+    rw [e1]
+    apply Nat.mul_le_mul_right
+    rcases hcase with ⟨_, a', c, fx, x0, x1, _, _⟩ | ⟨_, a', c, fx, x1, x0, _, _⟩
+    · obtain ⟨g, hg1, hg2, hg3⟩ := cp_swap_bound fx
+      have hk := swap_k (t := c.ret + c.protFee + c.burnFee) hg2 hg1
+      have := fx.offerOk; have := fx.askOk; have := fx.bal; have := fx.pend; have := fx.paid
+      have r0 : s'.x0.res = (s.x0.bal - s.x0.pend) + off := by
+        rw [x0]; simp only [Side.res] at *; omega
+      have r1 : s'.x1.res = (s.x1.bal - s.x1.pend) - (c.ret + c.protFee + c.burnFee) := by
+        rw [x1]; simp only [Side.res]; omega
+      have e : s.x0.bal + off - s.x0.pend - off = s.x0.bal - s.x0.pend := by omega
+      simp only [e] at hk
+      rw [r0, r1]
+      exact hk
+    · obtain ⟨g, hg1, hg2, hg3⟩ := cp_swap_bound fx
+      have hk := swap_k (t := c.ret + c.protFee + c.burnFee) hg2 hg1
+      have := fx.offerOk; have := fx.askOk; have := fx.bal; have := fx.pend; have := fx.paid
+      have r1 : s'.x1.res = (s.x1.bal - s.x1.pend) + off := by
+        rw [x1]; simp only [Side.res] at *; omega
+      have r0 : s'.x0.res = (s.x0.bal - s.x0.pend) - (c.ret + c.protFee + c.burnFee) := by
+        rw [x0]; simp only [Side.res]; omega
+      have e : s.x1.bal + off - s.x1.pend - off = s.x1.bal - s.x1.pend := by omega
+      simp only [e] at hk
+      rw [r0, r1, Nat.mul_comm (s.x0.bal - s.x0.pend - _) _]
+      show (s.x0.bal - s.x0.pend) * (s.x1.bal - s.x1.pend) ≤ _
+      rw [Nat.mul_comm (s.x0.bal - s.x0.pend) _]
+      exact hk
+  cases op with
+  | provide u rcv d0 d1 tol =>
+    obtain ⟨share, lock, l0, l1, es, _, _, _, _, e0, e1, eS, _⟩ := provide_ok h
+    rcases provideShares_ok es with ⟨h0, _⟩ | ⟨_, hk, n0, n1, hsh⟩
+    · exact absurd h0 hS
+    · subst hk
+      have m0 : share * (s.x0.bal - s.x0.pend) ≤ d0 * s.sup := by
+        have : share ≤ d0 * s.sup / (s.x0.bal - s.x0.pend) := by rw [hsh]; exact Nat.min_le_left _ _
+        calc share * (s.x0.bal - s.x0.pend) ≤ d0 * s.sup / (s.x0.bal - s.x0.pend) * (s.x0.bal - s.x0.pend) :=
+              Nat.mul_le_mul_right _ this
+          _ ≤ d0 * s.sup := Nat.div_mul_le_self _ _
+      have m1 : share * (s.x1.bal - s.x1.pend) ≤ d1 * s.sup := by
+        have : share ≤ d1 * s.sup / (s.x1.bal - s.x1.pend) := by rw [hsh]; exact Nat.min_le_right _ _
+        calc share * (s.x1.bal - s.x1.pend) ≤ d1 * s.sup / (s.x1.bal - s.x1.pend) * (s.x1.bal - s.x1.pend) :=
+              Nat.mul_le_mul_right _ this
+          _ ≤ d1 * s.sup := Nat.div_mul_le_self _ _
+      unfold ValueLe
+      have r0 : s'.x0.res = (s.x0.bal - s.x0.pend) + d0 := by rw [e0]; simp only [Side.res]; omega
+      have r1 : s'.x1.res = (s.x1.bal - s.x1.pend) + d1 := by rw [e1]; simp only [Side.res]; omega
+      rw [r0, r1, eS]
+      simp only [Side.res, Nat.add_zero]
+      exact value_of_sides (deposit_side m0) (deposit_side m1)
+  | swap u dir off ms rcv => exact swapCase h
+  | swapBad u dir off sent => exact swapCase (swapBad_ok h)
+  | withdraw u amt =>
+    obtain ⟨r0, r1, er, _, _, hr0, hr1, e0, e1, eS, _⟩ := withdraw_ok h
+    obtain ⟨_, l0, l1, q0, q1⟩ := refunds_ok er
+    unfold ValueLe
+    rcases Nat.lt_or_ge amt s.sup with hlt | hge
+    · have p0 := refund_le_pro_rata (p := s.x0.bal - s.x0.pend) (amt := amt) hS E18_pos
+      have p1 := refund_le_pro_rata (p := s.x1.bal - s.x1.pend) (amt := amt) hS E18_pos
+      rw [← q0] at p0
+      rw [← q1] at p1
+      have w0 := withdraw_side p0 (Nat.le_of_lt hlt)
+      have w1 := withdraw_side p1 (Nat.le_of_lt hlt)
+      have hpos : 0 < s.sup := Nat.pos_of_ne_zero hS
+      have b0 : r0 ≤ s.x0.bal - s.x0.pend := by
+        by_contra hc
+        have hc := Nat.lt_of_not_le hc
+        have : (s.x0.bal - s.x0.pend) * amt < r0 * s.sup := by nlinarith
+        omega
+      have b1 : r1 ≤ s.x1.bal - s.x1.pend := by
+        by_contra hc
+        have hc := Nat.lt_of_not_le hc
+        have : (s.x1.bal - s.x1.pend) * amt < r1 * s.sup := by nlinarith
+        omega
+      have f0 : s'.x0.res = (s.x0.bal - s.x0.pend) - r0 := by rw [e0]; simp only [Side.res]; omega
+      have f1 : s'.x1.res = (s.x1.bal - s.x1.pend) - r1 := by rw [e1]; simp only [Side.res]; omega
+      rw [f0, f1, eS]
+      exact value_of_sides w0 w1
+    · have : s'.sup = 0 := by omega
+      rw [this]
+      simp
+  | collect =>
+    obtain ⟨y0, y1, h0, h1, e⟩ := collect_ok h
+    subst e
+    refine ValueLe.of_res (s := s) (s' := { s with x0 := y0, x1 := y1 }) ?_ ?_ rfl
+    · rcases collectSide_ok h0 with ⟨_, _, e⟩ | ⟨_, e⟩ <;> subst e
+      · simp [Side.res]
+      · exact Nat.le_refl _
+    · rcases collectSide_ok h1 with ⟨_, _, e⟩ | ⟨_, e⟩ <;> subst e
+      · simp [Side.res]
+      · exact Nat.le_refl _
+  | setFees o f =>
+    obtain ⟨_, _, e⟩ := setFees_ok h
+    subst e
+    exact ValueLe.refl _
+  | donate u which amt =>
+    obtain ⟨_, hcase⟩ := donate_ok h
+    rcases hcase with ⟨_, _, e⟩ | ⟨_, _, e⟩ | ⟨_, _, e⟩ <;> subst e
+    · exact ValueLe.of_res (by simp only [Side.res]; omega) (Nat.le_refl _) rfl
+    · exact ValueLe.of_res (Nat.le_refl _) (by simp only [Side.res]; omega) rfl
+    · exact ValueLe.of_res (Nat.le_refl _) (Nat.le_refl _) rfl
+
+/-! ### histories -/
+
+theorem reach_inv (s : St) (hI : Inv s) (ops : List Op) :
+    Inv (reach cpCurve s ops) ∧ s.lpPair ≤ (reach cpCurve s ops).lpPair := by
+  induction ops generalizing s with
+  | nil => exact ⟨hI, Nat.le_refl _⟩
+  | cons op ops ih =>
+    simp only [reach]
+    cases h : step cpCurve s op with
+    | ok s1 =>
+      obtain ⟨hI1, hl1⟩ := step_inv hI h
+      obtain ⟨hI2, hl2⟩ := ih s1 hI1
+      exact ⟨hI2, Nat.le_trans hl1 hl2⟩
+    | err => exact ih s hI
+    | panic => exact ih s hI
+
+/-- supply stays positive once it is (the pair's own locked tokens are part of it) -/
+theorem Inv.sup_pos {s : St} (hI : Inv s) (h : s.sup ≠ 0) : Gen.MINIMUM_LIQUIDITY_AMOUNT ≤ s.sup := by
+  have := hI.lpSum
+  rcases hI.locked with h0 | h0
+  · exact absurd h0 h
+  · omega
+
+theorem step_sup_ne_zero {s s' : St} {op : Op} (hI : Inv s) (h : step cpCurve s op = .ok s')
+    (hS : s.sup ≠ 0) : s'.sup ≠ 0 := by
+  obtain ⟨hI', hl⟩ := step_inv hI h
+  have h1 := hI.sup_pos hS
+  have := hI'.lpSum
+  have := hI.lpSum
+  rcases hI.locked with h0 | h0
+  · exact absurd h0 hS
+  · have : 0 < Gen.MINIMUM_LIQUIDITY_AMOUNT := by decide
+    omega
+
+theorem reach_value (s : St) (hI : Inv s) (hS : s.sup ≠ 0) (ops : List Op) :
+    ValueLe s (reach cpCurve s ops) := by
+  induction ops generalizing s with
+  | nil => exact ValueLe.refl s
+  | cons op ops ih =>
+    simp only [reach]
+    cases h : step cpCurve s op with
+    | ok s1 =>
+      have hI1 := (step_inv hI h).1
+      have hS1 := step_sup_ne_zero hI h hS
+      have v1 := step_value h hS
+      have v2 := ih s1 hI1 hS1
+      unfold ValueLe at *
+      exact value_trans v1 v2 (Nat.pos_of_ne_zero hS1)
+    | err => exact ih s hI hS
+    | panic => exact ih s hI hS
+
+theorem reach_linv {cv : Curve} {K0 C0 K1 C1 : Nat} (s : St) (hL : LInv K0 C0 K1 C1 s) (ops : List Op) :
+    LInv K0 C0 K1 C1 (reach cv s ops) := by
+  induction ops generalizing s with
+  | nil => exact hL
+  | cons op ops ih =>
+    simp only [reach]
+    cases h : step cv s op with
+    | ok s1 => exact ih s1 (step_linv hL h)
+    | err => exact ih s hL
+    | panic => exact ih s hL
+
+theorem init_inv (n0 n1 : Bool) (f : Fees) (us : List User) (h : ∀ u ∈ us, u.lp = 0) :
+    Inv (init n0 n1 f us) := by
+  refine ⟨Nat.le_refl _, Nat.le_refl _, ?_, Or.inl rfl⟩
+  show 0 = 0 + sumF (·.lp) us
+  induction us with
+  | nil => rfl
+  | cons u us ih =>
+    have h1 := h u (List.mem_cons_self)
+    have h2 := ih (fun v hv => h v (List.mem_cons_of_mem _ hv))
+    simp only [sumF, List.map_cons, List.sum_cons] at h2 ⊢
+    omega
+
+theorem init_linv (n0 n1 : Bool) (f : Fees) (us : List User) :
+    LInv (sumF (·.a) us) 0 (sumF (·.b) us) 0 (init n0 n1 f us) := by
+  refine ⟨⟨rfl, rfl, rfl, rfl, rfl⟩, ⟨rfl, rfl, rfl, rfl, rfl⟩, ⟨?_, ?_⟩⟩
+  · show sumF (·.a) us = 0 + 0 + sumF (·.a) us
+    omega
+  · show sumF (·.b) us = 0 + 0 + sumF (·.b) us
+    omega
+
+/-! ### deposit then withdraw -/
+
+theorem dw_first {r d amt T : Nat} (h : r * T ≤ d * amt) (ha : amt ≤ T) (hT : 0 < T) : r ≤ d := by
+  apply Nat.le_of_mul_le_mul_right _ hT
+  exact Nat.le_trans h (Nat.mul_le_mul_left _ ha)
+
+theorem dw_later {r P d S sh amt : Nat} (h : r * (S + sh) ≤ (P + d) * amt) (ha : amt ≤ sh)
+    (hm : sh * P ≤ d * S) (hpos : 0 < S + sh) : r ≤ d := by
+  apply Nat.le_of_mul_le_mul_right _ hpos
+  calc r * (S + sh) ≤ (P + d) * amt := h
+    _ ≤ (P + d) * sh := Nat.mul_le_mul_left _ ha
+    _ = sh * P + d * sh := by ring
+    _ ≤ d * S + d * sh := Nat.add_le_add_right hm _
+    _ = d * (S + sh) := by ring
+
+/-- user `u` after `provide … rcv = u` holds its old balances minus the deposits and `share` more LP -/
+theorem provide_self_user {l : List User} {u d0 d1 share : Nat} (hu : u < l.length) :
+    ((l.set u { l.getD u dflt with a := (l.getD u dflt).a - d0, b := (l.getD u dflt).b - d1 }).set u
+      { ((l.set u { l.getD u dflt with a := (l.getD u dflt).a - d0, b := (l.getD u dflt).b - d1 }).getD u dflt) with
+        lp := ((l.set u { l.getD u dflt with a := (l.getD u dflt).a - d0, b := (l.getD u dflt).b - d1 }).getD u dflt).lp + share }).getD u dflt
+      = { a := (l.getD u dflt).a - d0, b := (l.getD u dflt).b - d1, lp := (l.getD u dflt).lp + share } := by
+  rw [getD_set_self _ _ _ _ (by simpa using hu), getD_set_self _ _ _ _ hu]
+
+/-- **depositing and immediately withdrawing (any part of) the minted shares never pays out more than
+    was deposited**, provided an empty pool holds nothing (a plain transfer into a pool without
+    supply is a gift to the first depositor) -/
+theorem deposit_then_withdraw_le {s s1 s2 : St} {u d0 d1 amt : Nat} {tol : Option Nat}
+    (hp : provide cpCurve s u u d0 d1 tol = .ok s1)
+    (hamt : amt + (s.user u).lp ≤ (s1.user u).lp)
+    (hw : withdraw s1 u amt = .ok s2)
+    (hempty : s.sup = 0 → s.x0.bal = s.x0.pend ∧ s.x1.bal = s.x1.pend) :
+    (s2.user u).a ≤ (s.user u).a ∧ (s2.user u).b ≤ (s.user u).b := by
+  obtain ⟨share, lock, l0, l1, es, hu, _, hd0, hd1, e0, e1, eS, _, _, eU, eLen, _⟩ := provide_ok hp
+  obtain ⟨r0, r1, er, hu1, _, _, _, _, _, _, _, _, eU2, _⟩ := withdraw_ok hw
+  obtain ⟨hS1, _, _, q0, q1⟩ := refunds_ok er
+  -- the user's record after the deposit
+  have hu1' : (s1.user u) = { a := (s.user u).a - d0, b := (s.user u).b - d1, lp := (s.user u).lp + share } := by
+    simp only [St.user, eU]
+    exact provide_self_user hu
+  have hshare : amt ≤ share := by rw [hu1'] at hamt; simp only [] at hamt; omega
+  -- the user's record after the withdrawal
+  have hu2 : (s2.user u) = { a := (s1.user u).a + r0, b := (s1.user u).b + r1, lp := (s1.user u).lp - amt } := by
+    simp only [St.user, eU2]
+    exact getD_set_self _ _ _ _ hu1
+  rw [hu2, hu1']
+  simp only []
+  -- the refunds are at most the deposits
+  have p0 := refund_le_pro_rata (p := s1.x0.bal - s1.x0.pend) (amt := amt) hS1 E18_pos
+  have p1 := refund_le_pro_rata (p := s1.x1.bal - s1.x1.pend) (amt := amt) hS1 E18_pos
+  rw [← q0] at p0
+  rw [← q1] at p1
+  rw [e0] at p0
+  rw [e1] at p1
+  simp only [] at p0 p1
+  rw [eS] at p0 p1
+  have hpos : 0 < s.sup + lock + share := by rw [← eS]; exact Nat.pos_of_ne_zero hS1
+  have key : r0 ≤ d0 ∧ r1 ≤ d1 := by
+    rcases provideShares_ok es with ⟨h0, hk, _, hsq⟩ | ⟨_, hk, n0, n1, hsh⟩
+    · obtain ⟨b0, b1⟩ := hempty h0
+      have z0 : s.x0.bal + d0 - s.x0.pend = d0 := by omega
+      have z1 : s.x1.bal + d1 - s.x1.pend = d1 := by omega
+      rw [z0] at p0
+      rw [z1] at p1
+      have hT : amt ≤ s.sup + lock + share := by omega
+      exact ⟨dw_first p0 hT hpos, dw_first p1 hT hpos⟩
+    · subst hk
+      have m0 : share * (s.x0.bal - s.x0.pend) ≤ d0 * s.sup := by
+        have : share ≤ d0 * s.sup / (s.x0.bal - s.x0.pend) := by rw [hsh]; exact Nat.min_le_left _ _
+        calc share * (s.x0.bal - s.x0.pend) ≤ d0 * s.sup / (s.x0.bal - s.x0.pend) * (s.x0.bal - s.x0.pend) :=
+              Nat.mul_le_mul_right _ this
+          _ ≤ d0 * s.sup := Nat.div_mul_le_self _ _
+      have m1 : share * (s.x1.bal - s.x1.pend) ≤ d1 * s.sup := by
+        have : share ≤ d1 * s.sup / (s.x1.bal - s.x1.pend) := by rw [hsh]; exact Nat.min_le_right _ _
+        calc share * (s.x1.bal - s.x1.pend) ≤ d1 * s.sup / (s.x1.bal - s.x1.pend) * (s.x1.bal - s.x1.pend) :=
+              Nat.mul_le_mul_right _ this
+          _ ≤ d1 * s.sup := Nat.div_mul_le_self _ _
+      have z0 : s.x0.bal + d0 - s.x0.pend = (s.x0.bal - s.x0.pend) + d0 := by omega
+      have z1 : s.x1.bal + d1 - s.x1.pend = (s.x1.bal - s.x1.pend) + d1 := by omega
+      rw [z0] at p0
+      rw [z1] at p1
+      simp only [Nat.add_zero] at p0 p1 hpos
+      exact ⟨dw_later p0 hshare m0 hpos, dw_later p1 hshare m1 hpos⟩
+  simp only [St.user, dflt] at hd0 hd1 ⊢
+  omega
+
+/-! ### fee ledgers (any pair type) -/
+
+def collectable (x : Side) : Bool := decide (Gen.PAIR_MINIMUM_COLLECTABLE_BALANCE < x.pend)
+
+/-- one side of a collection: exactly the pending entry moves (iff above the threshold), to the
+    collector; the reported reserve, the counters and the circulating amount are untouched -/
+theorem collectSide_exact {x x' : Side} (h : collectSide x = .ok x') :
+    x'.col = x.col + (if collectable x then x.pend else 0) ∧
+    x'.pend = (if collectable x then 0 else x.pend) ∧
+    x.bal - x'.bal = (if collectable x then x.pend else 0) ∧ x'.bal ≤ x.bal ∧
+    x'.res = x.res ∧ x'.allTime = x.allTime ∧ x'.burned = x.burned ∧ x'.chg = x.chg ∧ x'.brn = x.brn ∧
+    x'.tot = x.tot ∧ x'.sent = x.sent + (if collectable x then x.pend else 0) := by
+  rcases collectSide_ok h with ⟨hc, hl, e⟩ | ⟨hc, e⟩
+  · have : collectable x = true := by simp [collectable, hc]
+    subst e
+    simp only [this, if_true, Side.res]
+    refine ⟨trivial, trivial, by omega, by omega, by omega, trivial, trivial, trivial, trivial, trivial, trivial⟩
+  · have : collectable x = false := by simp [collectable]; omega
+    subst e
+    simp [this]
+
+/-- what one successful operation does to the ledgers of one side -/
+structure SideDelta (x x' : Side) (pf bf sent : Nat) : Prop where
+  chg : x'.chg = x.chg + pf
+  allTime : x'.allTime = x.allTime + pf
+  brn : x'.brn = x.brn + bf
+  burned : x'.burned = x.burned + bf
+  snt : x'.sent = x.sent + sent
+  col : x'.col = x.col + sent
+  pend : x'.pend + sent = x.pend + pf
+
+theorem SideDelta.zero_of_bal (x : Side) (b : Nat) : SideDelta x { x with bal := b } 0 0 0 :=
+  ⟨rfl, rfl, rfl, rfl, rfl, rfl, rfl⟩
+
+theorem SideDelta.same (x : Side) : SideDelta x x 0 0 0 := ⟨rfl, rfl, rfl, rfl, rfl, rfl, rfl⟩
+
+/-- **only swaps charge fees, only collections pay the collector**: every successful operation of any
+    pair type changes the ledgers of each side by `(pf, bf, sent)` where `pf`, `bf` are non-zero only
+    for a swap (then they are the computation's protocol / burn fee on the ASK side) and `sent` is
+    non-zero only for a collection -/
+theorem step_deltas {cv : Curve} {s s' : St} {op : Op} (h : step cv s op = .ok s') :
+    ∃ pf0 bf0 st0 pf1 bf1 st1, SideDelta s.x0 s'.x0 pf0 bf0 st0 ∧ SideDelta s.x1 s'.x1 pf1 bf1 st1 ∧
+      ((pf0 ≠ 0 ∨ bf0 ≠ 0 ∨ pf1 ≠ 0 ∨ bf1 ≠ 0) →
+        (∃ u dir off ms rcv, op = .swap u dir off ms rcv) ∨ (∃ u dir off sent, op = .swapBad u dir off sent)) ∧
+      ((st0 ≠ 0 ∨ st1 ≠ 0) → op = .collect) := by
+  have swapCase : ∀ {u dir off rcv : Nat} {ms : Option Nat}, swap cv s u dir off ms rcv = .ok s' →
+      ∃ pf0 bf0 pf1 bf1, SideDelta s.x0 s'.x0 pf0 bf0 0 ∧ SideDelta s.x1 s'.x1 pf1 bf1 0 := by
+    intro u dir off rcv ms h
+    obtain ⟨_, _, _, _, _, hcase⟩ := swap_ok h
+    rcases hcase with ⟨_, a', c, fx, x0, x1, _, _⟩ | ⟨_, a', c, fx, x1, x0, _, _⟩
+    · refine ⟨0, 0, c.protFee, c.burnFee, ?_, ?_⟩
+      · rw [x0]; exact SideDelta.zero_of_bal _ _
+      · rw [x1]; exact ⟨fx.chg, fx.allTime, fx.brn, fx.burned, fx.sent, fx.col, fx.pend⟩
+    · refine ⟨c.protFee, c.burnFee, 0, 0, ?_, ?_⟩
+      · rw [x0]; exact ⟨fx.chg, fx.allTime, fx.brn, fx.burned, fx.sent, fx.col, fx.pend⟩
+      · rw [x1]; exact SideDelta.zero_of_bal _ _
+  cases op with
+  | provide u rcv d0 d1 tol =>
+    obtain ⟨_, _, _, _, _, _, _, _, _, e0, e1, _⟩ := provide_ok h
+    refine ⟨0, 0, 0, 0, 0, 0, ?_, ?_, by simp, by simp⟩
+    · rw [e0]; exact SideDelta.zero_of_bal _ _
+    · rw [e1]; exact SideDelta.zero_of_bal _ _
+  | swap u dir off ms rcv =>
+    obtain ⟨pf0, bf0, pf1, bf1, d0, d1⟩ := swapCase h
+    exact ⟨pf0, bf0, 0, pf1, bf1, 0, d0, d1, fun _ => Or.inl ⟨u, dir, off, ms, rcv, rfl⟩, by simp⟩
+  | swapBad u dir off sent =>
+    obtain ⟨pf0, bf0, pf1, bf1, d0, d1⟩ := swapCase (swapBad_ok h)
+    exact ⟨pf0, bf0, 0, pf1, bf1, 0, d0, d1, fun _ => Or.inr ⟨u, dir, off, sent, rfl⟩, by simp⟩
+  | withdraw u amt =>
+    obtain ⟨_, _, _, _, _, _, _, e0, e1, _⟩ := withdraw_ok h
+    refine ⟨0, 0, 0, 0, 0, 0, ?_, ?_, by simp, by simp⟩
+    · rw [e0]; exact SideDelta.zero_of_bal _ _
+    · rw [e1]; exact SideDelta.zero_of_bal _ _
+  | collect =>
+    obtain ⟨y0, y1, h0, h1, e⟩ := collect_ok h
+    subst e
+    obtain ⟨c0, p0, _, _, _, a0, b0, g0, n0, _, t0⟩ := collectSide_exact h0
+    obtain ⟨c1, p1, _, _, _, a1, b1, g1, n1, _, t1⟩ := collectSide_exact h1
+    refine ⟨0, 0, if collectable s.x0 then s.x0.pend else 0, 0, 0, if collectable s.x1 then s.x1.pend else 0,
+      ⟨g0, a0, n0, b0, t0, c0, ?_⟩, ⟨g1, a1, n1, b1, t1, c1, ?_⟩, by simp, fun _ => rfl⟩
+    · show y0.pend + _ = _
+      rw [p0]; split <;> omega
+    · show y1.pend + _ = _
+      rw [p1]; split <;> omega
+  | setFees o f =>
+    obtain ⟨_, _, e⟩ := setFees_ok h
+    subst e
+    exact ⟨0, 0, 0, 0, 0, 0, SideDelta.same _, SideDelta.same _, by simp, by simp⟩
+  | donate u which amt =>
+    obtain ⟨_, hcase⟩ := donate_ok h
+    rcases hcase with ⟨_, _, e⟩ | ⟨_, _, e⟩ | ⟨_, _, e⟩ <;> subst e
+    · exact ⟨0, 0, 0, 0, 0, 0, SideDelta.zero_of_bal _ _, SideDelta.same _, by simp, by simp⟩
+    · exact ⟨0, 0, 0, 0, 0, 0, SideDelta.same _, SideDelta.zero_of_bal _ _, by simp, by simp⟩
+    · exact ⟨0, 0, 0, 0, 0, 0, SideDelta.same _, SideDelta.same _, by simp, by simp⟩
+
 end WW.Pair
